@@ -190,6 +190,19 @@ def run_scenario(case, mode):
         pass
     try:
         model = drive.make_model(conf, d)
+        # a second model on a smaller rectangle of the same files is set up BEFORE the first one is stepped (two nested domains prepared in one
+        # script): the arrays of the second must not replace those the first one samples
+        try:
+            import copy as _copy
+
+            c2 = _copy.deepcopy(conf)
+            c2["grid"]["subgrid"] = [1, 5, 1, 4]
+            c2["output"]["filename"] = str(d / "decoy_out.nc")
+            c2["release"]["release_file"] = str(d / "decoy.rls")
+            world.write_release(d / "decoy.rls", [dict(release_time=world.iso(S0), X=2.5, Y=2.0, Z=1.0)])
+            drive.make_model(c2, d)
+        except drive.RunFailed:
+            pass
         if case["kick"] != "none" or case["vertical"] != "off":
             model.tracker.rng = Scripted(2.5 if case["kick"] == "big" else 0.7)
         for _ in range(model.timer.Nsteps):
